@@ -128,31 +128,75 @@ func findGuardFrames(p *core.Program) []*guardFrame {
 					return true
 				})
 			}
-			// the handler: if r := recover(); r != nil { … record … }
-			var branch *ast.BlockStmt
 			callerInfo := info
 			info := g.hinfo
-			for _, st := range g.hbody.List {
-				is, ok := st.(*ast.IfStmt)
-				if !ok {
-					continue
-				}
-				hasRec := false
-				if is.Init != nil {
-					ast.Inspect(is.Init, func(n ast.Node) bool {
-						if c, ok := n.(*ast.CallExpr); ok && isBuiltinCall(info, c, "recover") {
-							hasRec = true
+			// the statements that run when the recovered value is non-nil:
+			//   if r := recover(); r != nil {B}   |   r := recover(); if r != nil {B}
+			//   r := recover(); if r == nil { return }; B…
+			var branch *ast.BlockStmt
+			var recVar types.Object
+			hasRecover := func(n ast.Node) bool {
+				found := false
+				if n != nil {
+					ast.Inspect(n, func(m ast.Node) bool {
+						if c, ok := m.(*ast.CallExpr); ok && isBuiltinCall(info, c, "recover") {
+							found = true
 						}
 						return true
 					})
 				}
-				if b, ok := eng.Unparen(is.Cond).(*ast.BinaryExpr); ok && b.Op == token.NEQ && isNilIdent(info, b.Y) && hasRec {
-					branch = is.Body
+				return found
+			}
+			bindRec := func(st ast.Stmt) {
+				if as, ok := st.(*ast.AssignStmt); ok && len(as.Lhs) == 1 && len(as.Rhs) == 1 && hasRecover(as.Rhs[0]) {
+					if id, ok := as.Lhs[0].(*ast.Ident); ok {
+						recVar = objOf(info, id)
+					}
+				}
+			}
+			nilTest := func(c ast.Expr) (isTest, nonNil bool) {
+				b, ok := eng.Unparen(c).(*ast.BinaryExpr)
+				if !ok || (b.Op != token.NEQ && b.Op != token.EQL) {
+					return false, false
+				}
+				x, y := b.X, b.Y
+				if isNilIdent(info, x) {
+					x, y = y, x
+				}
+				if !isNilIdent(info, y) {
+					return false, false
+				}
+				id, ok := eng.Unparen(x).(*ast.Ident)
+				if ok && recVar != nil && objOf(info, id) == recVar {
+					return true, b.Op == token.NEQ
+				}
+				if hasRecover(x) {
+					return true, b.Op == token.NEQ
+				}
+				return false, false
+			}
+			for i, st := range g.hbody.List {
+				bindRec(st)
+				is, ok := st.(*ast.IfStmt)
+				if !ok {
+					continue
+				}
+				if is.Init != nil {
+					bindRec(is.Init)
+				}
+				if isTest, nonNil := nilTest(is.Cond); isTest && branch == nil {
+					if nonNil {
+						branch = is.Body
+					} else if blockLeaves(is.Body) && is.Else == nil {
+						branch = &ast.BlockStmt{List: g.hbody.List[i+1:]}
+					} else if eb, ok := is.Else.(*ast.BlockStmt); ok {
+						branch = eb
+					}
 				}
 			}
 			if branch == nil {
 				if g.why == "" {
-					g.why = "the handler is not of the form `if r := recover(); r != nil { … }`"
+					g.why = "the handler has no test of the recovered value against nil whose non-nil side records an error"
 				}
 				out = append(out, g)
 				continue
